@@ -1372,13 +1372,13 @@ func (e *env) runStress(n int) {
 		}
 		e.finish(c, v)
 		e.r.Count("stress.cells", 1)
+		e.r.Eval(1) // one judged execution per cell (each cell's final value is judged against its own set)
 		if c.m.deliveries >= 2 {
 			e.r.Nontrivial("stress:" + strings.Join(c.sent, ","))
 		}
 	}
 	e.compareWhole(before, after, cells, now, "concurrent delivery")
 	e.surfaces(after, cells[:len(e.devs)], true, now)
-	e.r.Eval(1)
 }
 
 func logTail(b []byte, n int) []string {
